@@ -230,8 +230,10 @@ func (m *moduleEngine) putLocalMemory() {
 
 	s := uint64(len(mem.Buffer))
 	var b uint64
-	if len(mem.Buffer) > 0 {
-		b = uint64(uintptr(unsafe.Pointer(&mem.Buffer[0])))
+	// The backing array of an empty shared memory is already at its final address, and the
+	// compiled code never reloads the base of a shared memory: hence cap, not len.
+	if cap(mem.Buffer) > 0 {
+		b = uint64(uintptr(unsafe.Pointer(&mem.Buffer[:1][0])))
 	}
 	binary.LittleEndian.PutUint64(m.opaque[offset:], b)
 	binary.LittleEndian.PutUint64(m.opaque[offset+8:], s)
